@@ -5,7 +5,7 @@
 import itertools
 
 def J(etype, shapes, nsel):
-    params = {"etype": etype, "n": len(shapes), "nsel": nsel}
+    params = {"etype": etype, "n": len(shapes), "nsel": nsel, "itoadigit": 1}
     for i, s in enumerate(shapes):
         params["sh%d" % i] = s
     return {"name": "dep-t%d-s%s-sel%d" % (etype, "".join(map(str, shapes)) or "none", nsel), "func": "VerifHarness_Dependency",
@@ -24,7 +24,6 @@ def jobs(tier):
             for s in itertools.product((0, 1), repeat=3):
                 out.append(J(et, list(s), 2 if s[0] <= s[1] <= s[2] else 1))
             out += [J(et, [0, 2, 4], 1), J(et, [1, 3, 5], 1)]
-        # four other entries: in the thorough tier only (one quadruple takes minutes of solver time)
         return out
     for et in (0, 1):
         out.append(J(et, [], 1))
@@ -34,21 +33,18 @@ def jobs(tier):
                     out.append(J(et, list(s), nsel))
         for s in itertools.product(range(6), repeat=3):
             out.append(J(et, list(s), 2 if all(x <= 1 for x in s) else 1))
-        for s in itertools.product((0, 1), repeat=4):
-            out.append(J(et, list(s), 2))
-        for s in itertools.product((0, 1, 2, 4), repeat=4):
-            if any(x > 1 for x in s):
-                out.append(J(et, list(s), 1))
+        # four other entries are not registered: on the merged engine one quadruple takes 5-9 min and leaves a few
+        # obligations "unknown" at the 30 s query limit (the branch engine that first ran them needed 50 s) -- see DESIGN 8.1
     return out
 
 def reach(r):
     return r
 
 PROP = {
-    "level_text": "Bounded symbolic model checking of the real RuleDependencyCheck.Check / usesVector / usesAlert / nonRemovedEntries / Meta (and the real utils.HasVectorSelector walking real promql/parser VectorSelector nodes) against a reference dependency graph: for a removed recording or alerting rule and <= 4 other entries with symbolic state, kind, name, path, expression line, error condition and <= 2 symbolic vector selectors each (metric name, one label matcher with symbolic name, type and value), the solver shows that a problem is reported iff the rule is not a symlink, no remaining rule of the same kind and name exists and some remaining, parsed rule selects its metric (or ALERTS/ALERTS_FOR_STATE with an alertname equality matcher); that its details list exactly the dependants, once each, sorted by path, line, name; severity Warning; lines of the removed rule.",
+    "level_text": "Bounded symbolic model checking of the real RuleDependencyCheck.Check / usesVector / usesAlert / nonRemovedEntries / Meta (and the real utils.HasVectorSelector walking real promql/parser VectorSelector nodes) against a reference dependency graph: for a removed recording or alerting rule and <= 3 other entries with symbolic state, kind, name, path, expression line, error condition and <= 2 symbolic vector selectors each (metric name, one label matcher with symbolic name, type and value), the solver shows that a problem is reported iff the rule is not a symlink, no remaining rule of the same kind and name exists and some remaining, parsed rule selects its metric (or ALERTS/ALERTS_FOR_STATE with an alertname equality matcher); that its details list exactly the dependants, once each, sorted by path, line, name; severity Warning; lines of the removed rule.",
     "level_note": "Details are observed structurally: the harness peels '- `name` at `path:line`' lines off the end of the text; the free-text header (which embeds VectorSelector.String()) is not compared. Rule names and paths are one symbolic byte; strconv.Itoa is modelled for 0..9; fmt.Sprintf of concrete arguments runs natively. The removed-state detection itself is C03; PromQL parsing is outside (selectors are given as parsed nodes).",
     "runs": [{"pkg": "./internal/checks", "harness": ["harness/C20/dependency.go"], "intmode": True, "solver": "z3-new", "jobs": jobs}],
-    "bounds": {"other entries": "<= 4 (quick: all shape pairs, rule-only triples, 1 quadruple per kind)", "selectors per entry": "<= 2", "matchers per selector": 1,
+    "bounds": {"other entries": "<= 3 (quick: all shape pairs, rule-only triples, two mixed-error triples; thorough: all 6^n shapes for n <= 3); 4 entries not registered (solver unknowns at the query limit)", "selectors per entry": "<= 2", "matchers per selector": 1,
                "rule names": "1 byte in a..c", "paths": "1 byte in p..q", "expression lines": "1..3", "selector names": ["a", "b", "c", "ALERTS", "ALERTS_FOR_STATE"],
                "matcher names": ["alertname", "job"], "matcher types": "=, !=, =~, !~", "matcher values": ["a", "b", "c"]},
     "assumptions": ["an entry with PathError or Rule.Error carries no parsed rule (what the loader produces)", "an expression with a syntax error has no query tree",
